@@ -697,8 +697,12 @@ def diff(t, x, opaque=None):
                     pa = app(f"d{i}_{n.args[0]}", n.args[1:], R)
                 parts.append(mul(pa, da))
             r = add(*parts) if parts else zero
+        elif op in ("min", "max") and len(n.args) == 2 and all(a.sort != B for a in n.args):
+            # piecewise: the derivative of the selected argument (one-sided at the kink, like the `ite` it abbreviates)
+            a, b = n.args
+            r = ite(le(a, b) if op == "min" else ge(a, b), d(a), d(b))
         else:
-            # abs/min/max/trunc/floordiv/mod: only if independent of x
+            # abs/trunc/floordiv/mod: only if independent of x
             if any(d(a) is not zero for a in children(n) if a.sort != B):
                 raise NotDifferentiable(op)
             r = zero
